@@ -27,7 +27,7 @@ PROPS = {
     "C15": dict(runs=[("nn", 2000, 40000)], lean_module="Spade.Properties.C15"),
     "C16": dict(runs=[("shape", 2000, 40000), ("small", 800, 15000)], lean_module="Spade.Properties.C16"),
     "C17": dict(runs=[("line", 2000, 40000), ("small", 800, 15000)], lean_module="Spade.Properties.C17"),
-    "C18": dict(runs=[("vor", 1200, 20000), ("small", 1600, 20000)], lean_module="Spade.Properties.C18"),
+    "C18": dict(runs=[("vor", 1200, 20000), ("small", 1600, 20000), ("dt", 800, 10000)], lean_module="Spade.Properties.C18"),
     "C19": dict(runs=[("interp", 1600, 30000)], lean_module="Spade.Properties.C19"),
     "C20": dict(runs=[("refine", 1200, 20000)], lean_module="Spade.Properties.C20"),
 }
